@@ -360,6 +360,9 @@ func (h H) errPathsMode(fn *ssa.Function, c *ssa.Call, e ssa.Value, errIdx int, 
 					}
 				} else if isNilConst(r) {
 					bad = fmt.Sprintf("return at %s reports success although this step failed", h.pos(x))
+				} else if lenient && !errDerived(r, e, 0) && isRawErrorResult(r) {
+					// some other operation's error result: it may well be nil
+					bad = fmt.Sprintf("return at %s hands on another operation's error (possibly nil) although this step failed", h.pos(x))
 				} else if !lenient && !errDerived(r, e, 0) {
 					switch r.(type) {
 					case *ssa.Call, *ssa.MakeInterface, *ssa.UnOp:
@@ -900,4 +903,65 @@ func storedToFreeErr(e ssa.Value) bool {
 	}
 	visit(e, 0)
 	return handed
+}
+
+// isRawErrorResult: v is the error result of a call (direct or extracted)
+// that is not an error constructor of the fmt / errors packages or of the
+// repository (opError, ...): a value that may be nil.
+func isRawErrorResult(v ssa.Value) bool {
+	var c *ssa.Call
+	switch x := v.(type) {
+	case *ssa.Call:
+		c = x
+	case *ssa.Extract:
+		c, _ = x.Tuple.(*ssa.Call)
+	}
+	if c == nil {
+		return false
+	}
+	if f := c.Common().StaticCallee(); f != nil {
+		if f.Pkg != nil && (f.Pkg.Pkg.Path() == "fmt" || f.Pkg.Pkg.Path() == "errors") {
+			return false
+		}
+		switch f.Name() {
+		case "opError", "recoverErr", "notLeaderError":
+			return false
+		}
+	}
+	return true
+}
+
+// syncDirSyncs (C05.2c): value.set's durability step. syncDir must fsync the
+// directory it was given (the rename of the value file is durable only then)
+// on every path that reports success, except on the platform where
+// directories cannot be synced.
+func (h H) syncDirSyncs(rule string) {
+	fn := h.fn("raft:syncDir")
+	fi := h.P.Info(fn)
+	var sync ssa.Instruction
+	core.Instrs(fn, func(in ssa.Instruction) {
+		c, ok := in.(*ssa.Call)
+		if !ok {
+			return
+		}
+		if f := c.Common().StaticCallee(); f != nil && f.String() == "(*os.File).Sync" && strings.HasPrefix(fi.Sym(c.Common().Args[0]).String(), "os.Open($0)") {
+			sync = in
+		}
+	})
+	if !h.C.Check(rule+" fsync-present", "syncDir", sync != nil, h.fpos(fn), "syncDir does not call Sync on the directory it opened") {
+		return
+	}
+	for k, r := range core.Returns(fn) {
+		if core.Dominates(sync, r) {
+			continue
+		}
+		// not preceded by the fsync: only the windows early return, or an error return
+		if !isNilConst(retOperand(r, 0)) {
+			continue
+		}
+		res := fi.MustCross(r, func(a core.Atom) bool {
+			return a.Op == "==" && strings.Contains(a.L+a.R, "GOOS") && strings.Contains(a.L+a.R, "windows")
+		})
+		h.C.Check(rule+" success-implies-fsync", fmt.Sprintf("syncDir return#%d", k+1), res.OK, h.pos(r), "syncDir reports success without having synced the directory: "+res.Witness)
+	}
 }
